@@ -7,6 +7,7 @@ import shutil
 import tempfile
 import numpy as np
 from hypothesis import strategies as st
+from vlib import strategies as S
 
 from vlib.runner import Outcome, cut, CutError, close, maxrel
 from vlib import synth, ref
@@ -29,6 +30,8 @@ ASSUMPTIONS = [
     'HDF5 cross-section files identify the molecule by their mol_name dataset (as written by ExoMol), which is generated already sanitised',
 ]
 REQUIRED = {'cia:overlapping-ranges': 0.006, 'part:xsec': 0.1, 'part:ktable': 0.05, 'part:cia': 0.05, 'part:cache': 0.1}
+# coverage-guided extra (thorough tier): pure-Python taurex modules on this property's path, instrumented by atheris
+FUZZ = {'include': ['taurex.opacity', 'taurex.cia', 'taurex.cache', 'taurex.util.util'], 'runs': 8000, 'workers': 4}
 
 UNITS = {'bar': 1e5, 'Pa': 1.0, 'kPa': 1000.0, 'mbar': 100.0}
 NAMES = [('H2O', '1H2-16O'), ('CO2', '12C-16O2'), ('CH4', '12C-1H4'), ('NH3', 'NH3'), ('CO', 'CO'), ('TiO', '48Ti-16O')]
@@ -36,8 +39,8 @@ NAMES = [('H2O', '1H2-16O'), ('CO2', '12C-16O2'), ('CH4', '12C-1H4'), ('NH3', 'N
 
 @st.composite
 def _table(draw, nwn=None):
-    nP, nT = draw(st.integers(1, 3)), draw(st.integers(1, 3))
-    nW = nwn or draw(st.integers(2, 5))
+    nP, nT = draw(S.ints(1, 3)), draw(S.ints(1, 3))
+    nW = nwn or draw(S.ints(2, 5))
     n = nP * nT * nW
     return {'nP': nP, 'nT': nT, 'nW': nW, 'T0': draw(st.floats(100.0, 1500.0)),
             'dT': draw(st.lists(st.floats(50.0, 900.0), min_size=2, max_size=2)),
@@ -50,15 +53,15 @@ def _table(draw, nwn=None):
 @st.composite
 def _case(draw):
     part = draw(st.sampled_from(['cia', 'xsec', 'cache', 'ktable', 'cia', 'xsec', 'cache']))
-    c = {'part': part, 'name': draw(st.integers(0, len(NAMES) - 1)), 'iso': draw(st.booleans()),
+    c = {'part': part, 'name': draw(S.ints(0, len(NAMES) - 1)), 'iso': draw(st.booleans()),
          'table': draw(_table()), 'tp': [[draw(st.floats(-0.3, 1.3)), draw(st.floats(-0.3, 1.3))] for _ in range(4)],
          'mode': draw(st.sampled_from(['linear', 'exp']))}
     if part == 'ktable':
-        ng = draw(st.integers(1, 4))
+        ng = draw(S.ints(1, 4))
         c['weights'] = draw(st.lists(st.floats(0.05, 1.0), min_size=ng, max_size=ng))
         c['gfac'] = draw(st.lists(st.floats(-1.0, 1.0), min_size=ng, max_size=ng))
     if part == 'cia':
-        c['table'] = draw(_table(nwn=draw(st.integers(4, 7))))      # room for two wavenumber ranges
+        c['table'] = draw(_table(nwn=draw(S.ints(4, 7))))      # room for two wavenumber ranges
         c['pair'] = draw(st.sampled_from(['H2-H2', 'H2-He', 'N2-N2', 'CO2-CO2']))
         c['split'] = draw(st.sampled_from([False, True, True]))
         c['interleave'] = draw(st.sampled_from([True, False, True]))
